@@ -28,7 +28,7 @@ ASSUMPTIONS = [
 ]
 BUDGET = {
     "quick": {"examples": 400, "wall_s": 100, "shards": 4},
-    "thorough": {"examples": 3000, "wall_s": 1200, "shards": 16},
+    "thorough": {"examples": 10000, "wall_s": 1500, "shards": 16},
 }
 
 FUTURE = 10**7  # tick far beyond anything the harness hands out (year > 2100)
